@@ -6,6 +6,7 @@ import (
 	"math/rand"
 	"os"
 	"testing"
+	"time"
 
 	"github.com/bradenaw/juniper/stream"
 )
@@ -20,7 +21,7 @@ func pipeErr(err error) Ev {
 		return Ev{"k": "err", "e": "closedpipe", "v": 0}
 	case err == errSender:
 		return Ev{"k": "err", "e": "sender", "v": 0}
-	case err == context.Canceled:
+	case err == context.Canceled || err == context.DeadlineExceeded:
 		return Ev{"k": "err", "e": "ctx", "v": 0}
 	}
 	return Ev{"k": "err", "e": "other:" + err.Error(), "v": 0}
@@ -32,6 +33,7 @@ type pipeStep struct {
 	V   int
 	Ctx int
 	Err int
+	NoQ bool // no quiescence point after this step: the next step races with it
 }
 
 // genPipe: a random environment schedule for a pipe with nS senders.
@@ -87,19 +89,36 @@ func runPipe(t *testing.T, B int, steps []pipeStep) ([]Ev, bool, string) {
 			return r.pending[lastOf[who]]
 		}
 		closedS, closedR := false, false
+		// context 2 is a deadline context: it ends with DeadlineExceeded when the (fake) clock passes its deadline
+		dctx, dcancel := context.WithDeadline(context.Background(), time.Now().Add(time.Hour))
+		defer dcancel()
+		expired := false
+		ctxOf := func(id int) context.Context {
+			if id == 2 {
+				return dctx
+			}
+			return r.Ctx(id)
+		}
+		cancelCtx := func(id int) {
+			r.Cancel(id)
+			if id == 2 && !expired {
+				expired = true
+				time.Sleep(time.Hour + time.Second)
+			}
+		}
 		do := func(st pipeStep) {
 			switch st.A {
 			case "send":
 				if busy(st.S) {
 					return
 				}
-				ctx := r.Ctx(st.Ctx)
+				ctx := ctxOf(st.Ctx)
 				lastOf[st.S] = r.Go("Send", Ev{"s": st.S, "v": st.V, "ctx": st.Ctx, "err": 0}, func() Ev { return pipeErr(sender.Send(ctx, st.V)) })
 			case "trysend":
 				if busy(st.S) {
 					return
 				}
-				ctx := r.Ctx(st.Ctx)
+				ctx := ctxOf(st.Ctx)
 				lastOf[st.S] = r.Go("TrySend", Ev{"s": st.S, "v": st.V, "ctx": st.Ctx, "err": 0}, func() Ev {
 					ok, err := sender.TrySend(ctx, st.V)
 					if err != nil {
@@ -114,7 +133,7 @@ func runPipe(t *testing.T, B int, steps []pipeStep) ([]Ev, bool, string) {
 				if busy(0) || closedR {
 					return
 				}
-				ctx := r.Ctx(st.Ctx)
+				ctx := ctxOf(st.Ctx)
 				lastOf[0] = r.Go("Next", Ev{"s": 0, "v": 0, "ctx": st.Ctx, "err": 0}, func() Ev {
 					v, err := recv.Next(ctx)
 					switch {
@@ -142,16 +161,18 @@ func runPipe(t *testing.T, B int, steps []pipeStep) ([]Ev, bool, string) {
 				closedR = true
 				r.Go("CloseR", Ev{"s": 0, "v": 0, "ctx": 0, "err": 0}, func() Ev { recv.Close(); return pipeErr(nil) })
 			case "cancel":
-				r.Cancel(st.Ctx)
+				cancelCtx(st.Ctx)
 			}
 		}
 		for _, st := range steps {
 			do(st)
-			r.Quiesce()
+			if !st.NoQ {
+				r.Quiesce()
+			}
 		}
 		// epilogue: let every call finish so that the bubble can end
 		for c := 1; c <= 3; c++ {
-			r.Cancel(c)
+			cancelCtx(c)
 		}
 		do(pipeStep{A: "closeS"})
 		r.Quiesce()
